@@ -481,6 +481,13 @@ def run(ctx):
                 continue
             else:
                 res.bad("C16-R2", key, n.get("loc"), "%s is modified by %s in %s: not one of push_back-if-absent / swap-and-pop / clear" % (vec.split("::")[-1], kind, f.name))
+        # removal removes: the by-id removal shrinks the vector
+        if not any(f is rem and kind in ("call:pop_back", "call:erase") for f, kind, n in ws):
+            res.bad("C16-R2", "%s:%s:removes" % (short, rem.name.split("::")[-1]), rem.loc,
+                    "%s never shrinks %s: a removed id stays tracked (or, after the swap, is duplicated)" % (rem.name, vec.split("::")[-1]))
+        if not any(f is upd and kind in ("call:push_back", "call:emplace_back") for f, kind, n in ws):
+            res.bad("C16-R2", "%s:%s:creates" % (short, upd.name.split("::")[-1]), upd.loc,
+                    "%s never appends to %s: messages of unknown ids are dropped instead of being tracked" % (upd.name, vec.split("::")[-1]))
         # ---- R1b every element access uses an index computed by this call's lookup (or size()-1 inside the removal swap)
         for f in fb.all_functions():
             if f.rec != L["cls"] or f.raw.get("const"):
@@ -523,6 +530,13 @@ def run(ctx):
         if d == NS + "DeviceStatus::devicePacket" or (isinstance(n, dict) and n.get("k") == "call" and n.get("op") == "=" and d.startswith(NS + "DeviceStatus::")):
             res.check(type_guard(mf.at(n), 0x0301, fn=du) is not None, "C16-R3", "DeviceStatus::update:device-packet", n.get("loc"),
                       "device packet replaced only by a capture-module status message", "device packet is overwritten by messages of another kind")
+    stored = [n for d, kind, n in writes_of(du) if d == NS + "DeviceStatus::devicePacket" or
+              (isinstance(n, dict) and n.get("k") == "call" and n.get("op") == "=" and d.startswith(NS + "DeviceStatus::") and "acket" in d)]
+    res.check(bool(stored), "C16-R3", "DeviceStatus::update:stores-device-packet", du.loc, "a capture-module status message replaces the stored device packet",
+              "DeviceStatus::update never stores the packet it is given: the tracker keeps the device's first (or a default) capture-module status forever")
+    if not list(du.calls(NS + "DeviceStatus::updateInterfaces")):
+        res.bad("C16-R3", "DeviceStatus::update:updates-interfaces", du.loc, "DeviceStatus::update never updates the interface entries: interface status "
+                "messages are dropped")
     for c in du.calls(NS + "DeviceStatus::updateInterfaces"):
         res.check(type_guard(mf.at(c), 0x0302, fn=du) is not None, "C16-R3", "DeviceStatus::update:interfaces", c.get("loc"),
                   "interfaces updated only by an interface status message", "interface entries are updated by messages of another kind")
